@@ -253,6 +253,25 @@ fn int_presentation(rng: &mut Rng, z: i128) -> Val {
 /// integers (and chars) for a Float32 / Float64 column (`v as f32` / `v as f64`): small ones, boundary values of every width, and the
 /// neighbourhood of ties of the target significand (sig bits) - on the tie, one above, one below, a little further - at every exponent
 /// up to 2^63, where a detour through the other float width would round twice
+/// f64 values for a Float32 column (`v as f32`, the path of every serde_json number): values on the f32 grid, on / just above / just below
+/// a tie between two neighbouring f32 values (in the normal and in the subnormal range of f32), around the overflow threshold, below the
+/// smallest subnormal, infinities, zeros and the canonical NaN (other NaN payloads are not compared: their conversion is not specified)
+pub fn gen_f64_for_f32(rng: &mut Rng) -> u64 {
+    let sign = (rng.below(2) as u64) << 63;
+    let tail = |rng: &mut Rng| -> u64 { match rng.below(7) { 0 => 0, 1 => 1 << 28, 2 => (1 << 28) + 1, 3 => (1 << 28) - 1, 4 => (1 << 28) | (rng.next_u64() & 0xfff_ffff), 5 => 0x1fff_ffff, _ => rng.next_u64() & 0x1fff_ffff } };
+    match rng.below(10) {
+        0 => *rng.pick(&[0u64, 1 << 63, 0x7ff0_0000_0000_0000, 0xfff0_0000_0000_0000, 0x7ff8_0000_0000_0000, 1, 0x000f_ffff_ffff_ffff]),
+        1 => { let b = rng.next_u64(); if f64::from_bits(b).is_nan() { 0x7ff8_0000_0000_0000 } else { b } }
+        // around the largest finite f32 (field 254, all ones) and the overflow threshold halfway to 2^128
+        2 => sign | ((127u64 + 1023) << 52) | (0x7f_ffffu64 << 29) | tail(rng),
+        3 => sign | ((128u64 + 1023) << 52) | (rng.next_u64() & 0xf_ffff_ffff_ffff & if rng.chance(1, 2) { 0 } else { !0 }),
+        // the subnormal range of f32: exponents -150 (half the smallest subnormal: a tie with zero) .. -127, ties sit at every bit position
+        4 | 5 => { let e = -150 + rng.below(24) as i64; let frac = rng.next_u64() & 0xf_ffff_ffff_ffff; let sh = rng.below(52) as u32;
+                   let m = match rng.below(4) { 0 => 0, 1 => (frac >> sh) << sh, 2 => ((frac >> sh) << sh) | 1, _ => frac }; sign | (((e + 1023) as u64) << 52) | m }
+        // the normal range: an f32 significand followed by a tie pattern
+        _ => { let e = -126 + rng.below(254) as i64; sign | (((e + 1023) as u64) << 52) | ((rng.next_u64() & 0x7f_ffff) << 29) | tail(rng) }
+    }
+}
 fn gen_int_for_float(rng: &mut Rng, sig: u32) -> Val {
     let z: i128 = match rng.below(8) {
         0 => rng.below(1000) as i128 - 500,
@@ -300,8 +319,10 @@ pub fn gen_val(rng: &mut Rng, f: &Field, inj: &mut Inject) -> Val {
             match rng.below(10) { 0 => Val::Bool(rng.chance(1, 2)), 1 => { let c = *rng.pick(&['a', '\u{7f}', 'é', '日', '𝄞']); if k.fits(c as i128) { Val::Char(c) } else { Val::Char('a') } } _ => { let z = gen_int_in(rng, k); int_presentation(rng, z) } }
         }
         T::Float32 if rng.chance(1, 3) => gen_int_for_float(rng, 24),
+        T::Float32 if rng.chance(1, 3) => Val::F64(gen_f64_for_f32(rng)),
         T::Float32 => Val::F32(match rng.below(4) { 0 => f32::NAN.to_bits(), 1 => 0, 2 => (-1.5f32).to_bits(), _ => rng.next_u64() as u32 }),
         T::Float64 if rng.chance(1, 3) => gen_int_for_float(rng, 53),
+        T::Float64 if rng.chance(1, 4) => Val::F32({ let b = rng.next_u64() as u32; match rng.below(6) { 0 => b & 0x807f_ffff, 1 => *rng.pick(&[0u32, 1, 0x8000_0000, 0x7f80_0000, 0xff80_0000, 0x7fc0_0000, 0x007f_ffff, 0x0080_0000, 0x7f7f_ffff]), _ => if f32::from_bits(b).is_nan() { 0x7fc0_0000 } else { b } } }),
         T::Float64 => Val::F64(match rng.below(4) { 0 => f64::NAN.to_bits(), 1 => 0, 2 => (2.25f64).to_bits(), _ => rng.next_u64() }),
         T::Date32 | T::Time32(_) => { let z = gen_int_in(rng, IK::I32); Val::Int(if rng.chance(1, 2) { IK::I32 } else { IK::I64 }, z) }
         T::Date64 | T::Time64(_) => { if rng.chance(1, 2) { Val::Int(IK::I32, gen_int_in(rng, IK::I32)) } else { Val::Int(IK::I64, gen_int_in(rng, IK::I64)) } }
